@@ -23,7 +23,14 @@ for f in sorted(os.listdir(os.path.join(here, "mutants"))):
 for d in sorted(os.listdir(os.path.join(root, "seeded"))):
     p = os.path.join(root, "seeded", d, "patch.diff")
     if os.path.exists(p):
-        jobs.append((d[:3], "seeded", "seeded/" + d, p))
+        if d.startswith("F"):
+            # file-targeted seeds: the properties they claim to break
+            meta = json.load(open(os.path.join(root, "seeded", d, "meta.json")))
+            for pr in [meta.get("property")] + list(meta.get("also") or []):
+                if pr and re.fullmatch(r"C\d\d", pr):
+                    jobs.append((pr, "seeded", "seeded/" + d, p))
+        else:
+            jobs.append((d[:3], "seeded", "seeded/" + d, p))
 if only:
     jobs = [j for j in jobs if j[0].lower() == only]
 if "--match" in sys.argv:
